@@ -34,6 +34,17 @@ C  random histories (5 nodes, ~100 events, sequence numbers within 20 of a base 
    vector - minimal, or with the numbers of one kind in a 3 / 5 / 9-octet form - cut at every octet: must be
    ignored entirely and quietly) and "svl" (non-minimal numbers, trailing octets, unknown elements: read as the
    vector or ignored, never an exception); in B and C the packets of these kinds take the members in turn.
+   Scale (stage_c_scale): the same random histories for groups of 24 (quick) / 20, 40, 100 (thorough) nodes with
+   generated names - vectors of a few entries and of the whole group, i.e. up to 252 octets and 253+ (a three-octet
+   Length) - and with sequence numbers at every magnitude a NonNegativeInteger has: history i starts the own and
+   the peers' numbers just below 2^31, 2^32, 2^53, 2^63, 2^64 - 1 or above 2^40 (MAGNITUDES; every class in every
+   run, quick tier included). TLC has 32-bit integers: these executions are recorded in scaled classes (Svs.tla
+   header; svskit.SeqMap - the model value HiSeq + k stands for B + k, a number of neither class for BadSeq), which
+   is exact for a model that only compares sequence numbers and adds to the own one. The executions of the instance,
+   its sibling and its loop-back peer are judged in one SvsTrace run per group size (padded to the peer's group).
+   Vacuity: witnesses ManyEntries / ManyEntriesOutdated / HighSeqPublish / HighSeqMerged / HighSeqSupEmit, and
+   the executor's count of accepted vectors on either side of 253 octets. Signatures of steps at scale carry
+   +253octets / +hiseq after the packet (or state) class.
 
 Besides local_sv / emitted vectors / callback count the projection has the values returned by
 new_data() (Svs!PublishedSeqs) and local_sv as seen inside the callback (Svs!CallbackSaw). The
@@ -70,7 +81,10 @@ WITNESSES = ['SupEmit', 'SupNoEmit', 'OverclaimWouldRaise', 'Incomparable', 'Old
              'CallbackPublish', 'CallbackPublishInSup', 'CallbackPublishTwice',
              'DupAccepted', 'DupOverclaimHidden', 'DupNotMax', 'AgainAccepted', 'AgainOutdated',
              'ActPublishThenRecv', 'PTRNotOutdated', 'PTROutdated', 'PTRRaises', 'PTRCallbackPublish',
-             'PTRInSup', 'PTRCaughtUp', 'PTRStillOverclaims', 'PTRIgnored', 'LenientAccepted', 'LenientRejected']
+             'PTRInSup', 'PTRCaughtUp', 'PTRStillOverclaims', 'PTRIgnored', 'LenientAccepted', 'LenientRejected',
+             'ManyEntries', 'ManyEntriesOutdated', 'HighSeqPublish', 'HighSeqMerged', 'HighSeqSupEmit']
+# need a large group / sequence numbers in the high class: recorded executions only (stage C, scale histories)
+SCALE_WITNESSES = ('ManyEntries', 'ManyEntriesOutdated', 'HighSeqPublish', 'HighSeqMerged', 'HighSeqSupEmit')
 DUP_WITNESSES = ('DupAccepted', 'DupOverclaimHidden', 'DupNotMax')      # need a packet alphabet with duplicates
 AGAIN_WITNESSES = ('AgainAccepted', 'AgainOutdated')                    # need Remember = TRUE
 LEN_WITNESSES = ('LenientAccepted', 'LenientRejected')                  # need a packet alphabet with kind "svl"
@@ -180,7 +194,7 @@ def stage_a(ctx):
         if remember:
             want = AGAIN_WITNESSES
         else:
-            want = [x for x in WITNESSES if x not in AGAIN_WITNESSES
+            want = [x for x in WITNESSES if x not in AGAIN_WITNESSES + SCALE_WITNESSES
                     and not (pk == 'PacketsPlain' and (x.startswith('Damaged') or x in DUP_WITNESSES + LEN_WITNESSES))
                     and not (pre == 0 and x in PTR_WITNESSES)
                     and not (react < 2 and x == 'CallbackPublishTwice')]
@@ -266,6 +280,18 @@ def packet_class(p):
     return 'plain'
 
 
+def scale_tag(ev):
+    """suffix of the packet / state class in a signature: the step is one of the scale dimensions (a vector of 253+
+    octets was delivered; a sequence number of the high class - or of no class - is in the local vector)"""
+    tag = ''
+    if ev.get('big'):
+        tag += '+253octets'
+    vals = list(ev['post']['local'].values()) + [ev['post']['seq']]
+    if any(isinstance(v, int) and (v >= svskit.HI or v == svskit.BADSEQ) for v in vals):
+        tag += '+hiseq'
+    return tag
+
+
 def nontrivial(evs):
     """rule: a suppression period that ends by its timer, an over-claiming / damaged / undecodable
     packet, or a burst publication occurs in the history"""
@@ -298,8 +324,10 @@ class PairRun:
                     loop, application and face with main; its timers never fire; events interleave
       live = False  first is an earlier instance of the same group that was stopped before main starts"""
 
-    def __init__(self, nodes, sup, sync, rstep, live, first_cfg, main_cfg, peer=False):
+    def __init__(self, nodes, sup, sync, rstep, live, first_cfg, main_cfg, peer=False, hi=None):
         self.nodes, self.sup, self.sync, self.rstep, self.live = nodes, sup, sync, rstep, live
+        self.hi = hi                   # what the model value svskit.HI stands for (scaled classes); None: no high class
+        self.octets = {'raised': [0, 0], 'outdated': [0, 0]}    # accepted vectors of [up to 252, 253+] octets that ...
         self.first_cfg, self.main_cfg = first_cfg, main_cfg
         self.base = int(round(sync * 0.9))
         self.first = self.main = self.peer = None
@@ -314,10 +342,11 @@ class PairRun:
         self.faults = []               # Scenario.init_faults of the instances of this run
         if first_cfg is not None:
             if live:
-                self.first = Scenario(nodes, init_seq=first_cfg['init'], rstep=rstep, world=svskit.SIBLING, quiet=True)
+                self.first = Scenario(nodes, init_seq=first_cfg['init'], rstep=rstep, world=svskit.SIBLING, quiet=True,
+                                      seq_hi=hi)
             else:
                 self.first = Scenario(nodes, init_seq=first_cfg['init'], sup_ticks=sup, sync_ticks=sync, rstep=rstep,
-                                      j0=first_cfg['t0'] - self.base)
+                                      j0=first_cfg['t0'] - self.base, seq_hi=hi)
             self.faults += self.first.init_faults
 
     def start_main(self):
@@ -328,7 +357,8 @@ class PairRun:
             self.first = None
         cfg = self.main_cfg
         self.main = Scenario(self.nodes, init_seq=cfg['init'], sup_ticks=self.sup, sync_ticks=self.sync,
-                             rstep=self.rstep, j0=cfg['t0'] - self.base, host=self.first if self.live else None)
+                             rstep=self.rstep, j0=cfg['t0'] - self.base, host=self.first if self.live else None,
+                             seq_hi=self.hi)
         self.faults += self.main.init_faults
         obs = self.main.post()
         d = diff(obs, expected_init(self.nodes, cfg['init'], cfg['t0']), C18_FIELDS + SYNC_FIELDS)
@@ -337,7 +367,7 @@ class PairRun:
         if self.with_peer:
             # a peer in the group of `main` (own application and face, same loop): loop-back of main's Interests
             self.peer = Scenario(self.nodes + ['a'], rstep=self.rstep, world=svskit.PEER, quiet=True,
-                                 host=self.main, own_app=True)
+                                 host=self.main, own_app=True, seq_hi=self.hi)
             self.faults += self.peer.init_faults
             self.peer.post()
         return obs
@@ -345,12 +375,13 @@ class PairRun:
     def loop_back(self):
         """every sync Interest `main` emitted in its last step is handed, as it is on the wire, to the peer: for
         the peer that is RecvSV of exactly the vector main announced (main itself is node "a" there)"""
-        for wire, vec in self.main.last_wires:
-            if any(n not in self.nodes for n in vec):
-                continue                                   # foreign entries: main's own execution is rejected already
+        for wire, vec, octets in self.main.last_wires:
+            if any(n not in self.nodes or not isinstance(v, int) or v < 0 for n, v in vec.items()):
+                continue            # foreign entries / numbers of no class: main's own execution is rejected already
             p = {'k': 'sv', 'es': [{'id': 'a' if n == self.nodes[0] else n, 'seq': v} for n, v in vec.items()]}
             post = self.peer.recv_wire(wire)
-            self.recs['peer']['ev'].append({'a': 'RecvSV', 'p': p, 'j': 0, 'r': 0, 'post': post})
+            self.recs['peer']['ev'].append({'a': 'RecvSV', 'p': p, 'j': 0, 'r': 0, 'post': post,
+                                            **({'big': 1} if (octets or 0) >= 253 else {})})
 
     def step(self, who, ev):
         sc = self.first if who == 'first' else self.main
@@ -358,6 +389,8 @@ class PairRun:
         post = sc.apply(ev)
         if 'p' in ev and sc.last_x is not None:
             ev['x'] = sc.last_x               # which member of the class "cut" / "svl" the packet stood for
+        if 'p' in ev and ev['p']['k'] == 'sv' and (sc.last_octets or 0) >= 253:
+            ev['big'] = 1                 # the vector took 253 octets or more (a three-octet Length)
         if 'r' in ev and post['missed'] == 0:
             ev['r'] = 0                   # the callback did not run: the planned reaction is no part of the history
         self.schedule.append([who, dict(ev)])
@@ -366,6 +399,13 @@ class PairRun:
         rs = raised_sig(ev)
         if rs:
             self.raised.append((who, len(self.recs[who]['ev'])) + rs)
+        if who == 'main' and ev['a'] == 'RecvSV' and sc.last_octets is not None:
+            big = int(sc.last_octets >= 253)
+            evs = self.recs[who]['ev']
+            if post['missed']:
+                self.octets['raised'][big] += 1
+            if post['state'] == 'Suppress' and (evs[-2]['post']['state'] if len(evs) > 1 else 'Steady') == 'Steady':
+                self.octets['outdated'][big] += 1
         if who == 'main' and self.peer is not None and post['out']:
             self.loop_back()
         return post
@@ -382,7 +422,8 @@ class PairRun:
     def obj(self, which, at):
         return {'kind': 'pair', 'nodes': self.nodes, 'sup': self.sup, 'sync': self.sync, 'rstep': self.rstep,
                 'live': self.live, 'peer': self.with_peer, 'first_cfg': self.first_cfg, 'main_cfg': self.main_cfg,
-                'main_after': self.main_after, 'schedule': self.schedule, 'which': which, 'at': at}
+                'main_after': self.main_after, 'schedule': self.schedule, 'which': which, 'at': at,
+                **({'hi': str(self.hi)} if self.hi is not None else {})}
 
     def report_init(self, ctx):
         report_faults(ctx, self.faults)
@@ -683,7 +724,7 @@ def _validate(ctx, recs, idx, nodes, dev, name, maxseq, env=None, count=True):
     return r, {int(a): int(b) for a, b in rejected}
 
 
-def judge(ctx, recs, nodes, sup, sync, rstep, name, maxseq=70000, report=True, objs=None):
+def judge(ctx, recs, nodes, sup, sync, rstep, name, maxseq=svskit.HI + svskit.HI_SPAN, report=True, objs=None):
     """Validate recorded executions with SvsTrace (Mode open).
     Pass 1, deviations off: an execution that is accepted is a behaviour of the specification.
     Pass 2, only for the rest, deviations on: the first event no specification step explains is
@@ -754,7 +795,7 @@ def judge(ctx, recs, nodes, sup, sync, rstep, name, maxseq=70000, report=True, o
                 if ev is None:
                     sig, what = 'C18/SvsInst/trace/end', 'trace bookkeeping'
                 else:
-                    cls = packet_class(ev['p']) if 'p' in ev else pre
+                    cls = (packet_class(ev['p']) if 'p' in ev else pre) + scale_tag(ev)
                     obs = ''
                     if fl == 'out':
                         obs = '/emitted' if ev['post']['out'] else '/not-emitted'
@@ -778,13 +819,19 @@ def judge(ctx, recs, nodes, sup, sync, rstep, name, maxseq=70000, report=True, o
 MAXSEQ_C = 20
 
 
-def random_packet(rng, nodes, local, selfseq, base=0):
+def random_packet(rng, nodes, local, selfseq, base=0, dense=False):
+    """dense (large groups): the share of the nodes a vector names is drawn once per vector - a few nodes, most of
+    them, or the whole group - so that vectors on either side of 253 octets are heard"""
     top = base + MAXSEQ_C
     me = nodes[0]
     x = rng.random()
     if x < 0.04:
         return {'k': rng.choice(['empty', 'garbage', 'nowrapper', 'badname', 'unsigned', 'seqlen0', 'seqlen3', 'cut', 'cut']), 'es': []}
-    ids = [n for n in nodes if rng.random() < rng.choice([0.3, 0.6, 1.0])] or [rng.choice(nodes)]
+    if dense:
+        share = rng.choice([4.0 / len(nodes), 0.3, 0.7, 1.0, 1.0])
+        ids = [n for n in nodes if rng.random() < share] or [rng.choice(nodes)]
+    else:
+        ids = [n for n in nodes if rng.random() < rng.choice([0.3, 0.6, 1.0])] or [rng.choice(nodes)]
     style = rng.choice(['newer', 'older', 'mixed', 'mixed', 'equal', 'random', 'restarted'])
     es = []
     for n in ids:
@@ -823,13 +870,13 @@ def random_packet(rng, nodes, local, selfseq, base=0):
     return {'k': 'sv', 'es': es}
 
 
-def heard_packet(rng, nodes, cur, base, slots):
+def heard_packet(rng, nodes, cur, base, slots, dense=False):
     """the next vector heard. slots (None: no such peers) holds the vectors of up to three peers: a peer repeats its
     vector byte for byte - whatever became of it the first time, and whatever the node has published since -
     until it has a new one"""
     if slots and rng.random() < 0.3:
         return rng.choice(slots)
-    p = random_packet(rng, nodes, cur['local'], cur['seq'], base)
+    p = random_packet(rng, nodes, cur['local'], cur['seq'], base, dense)
     if slots is not None and p['k'] == 'sv':
         if len(slots) < 3:
             slots.append(p)
@@ -838,17 +885,17 @@ def heard_packet(rng, nodes, cur, base, slots):
     return p
 
 
-def random_event(rng, nodes, cur, njit, busy, timed=True, base=0, slots=None):
+def random_event(rng, nodes, cur, njit, busy, timed=True, base=0, slots=None, dense=False):
     x = rng.random()
     j = rng.randrange(njit)
     top = base + MAXSEQ_C
     if timed and cur['seq'] + 5 <= top and rng.random() < 0.07:
         # the application publishes in the very loop iteration in which the handler of a sync Interest then runs
         # (before the timer task got to announce the publication): PublishThenRecv
-        return {'a': 'PublishThenRecv', 'n': rng.choice([1, 1, 1, 2, 3]), 'p': heard_packet(rng, nodes, cur, base, slots),
+        return {'a': 'PublishThenRecv', 'n': rng.choice([1, 1, 1, 2, 3]), 'p': heard_packet(rng, nodes, cur, base, slots, dense),
                 'j': j, 'r': rng.choice([0, 0, 0, 1, 1, 2])}
     if x < busy or (not timed and x < 0.75):
-        return {'a': 'RecvSV', 'p': heard_packet(rng, nodes, cur, base, slots), 'j': j,
+        return {'a': 'RecvSV', 'p': heard_packet(rng, nodes, cur, base, slots, dense), 'j': j,
                 'r': rng.choice([0, 0, 0, 1, 1, 2]) if cur['seq'] + 2 <= top else 0}
     # a node that hears a peer claim more of its data than it has produced (it restarted from an older
     # sequence number) tends to publish: catching up
@@ -856,37 +903,71 @@ def random_event(rng, nodes, cur, njit, busy, timed=True, base=0, slots=None):
     if (x < busy + (0.2 if behind else 0.08) or not timed) and cur['seq'] < top:
         return {'a': 'Publish', 'n': min(rng.choice([1, 1, 1, 2, 3]), top - cur['seq']), 'j': j}
     if not timed:
-        return {'a': 'RecvSV', 'p': random_packet(rng, nodes, cur['local'], cur['seq'], base), 'j': j, 'r': 0}
+        return {'a': 'RecvSV', 'p': random_packet(rng, nodes, cur['local'], cur['seq'], base, dense), 'j': j, 'r': 0}
     if cur['timer'] == 0:
         return {'a': 'TimerFire', 'j': j}
     t = cur['timer']
     return {'a': 'Tick', 'd': t if rng.random() < 0.5 else rng.randint(1, t)}
 
 
-def record_random(rng, nodes, n_events, sup, sync, rstep, njit):
+def record_random(rng, nodes, n_events, sup, sync, rstep, njit, hi=None, dense=False):
     """one process, three instances: a sibling of another sync group gets state first, then the instance
     under the random history is created, then a peer of its group; sibling events (vectors heard,
     publications) are interleaved, and every sync Interest the instance emits is fed to the peer.
-    Sequence numbers start at a base on either side of the 1 / 2 / 4 byte SeqNo encodings."""
-    base = rng.choice([0, 0, 250, 65530])
+    Sequence numbers start at a base on either side of the 1 / 2 / 4 byte SeqNo encodings; with hi (scaled
+    classes: the model value svskit.HI stands for hi) at hi - the own sequence number and most of the peers' are
+    then hi .. hi + MAXSEQ_C, the rest 0 or just above."""
+    base = rng.choice([0, 0, 250, 65530]) if hi is None else svskit.HI
     first_cfg = {'init': base + rng.choice([0, 2, 5]), 't0': svskit.QUIET_TIMER}
     main_cfg = {'init': base + rng.choice([0, 0, 0, rng.randint(1, 5)]), 't0': int(round(sync * 0.9)) + rng.randrange(njit)}
-    pr = PairRun(nodes, sup, sync, rstep, True, first_cfg, main_cfg, peer=True)
+    if hi is not None:
+        first_cfg['hi'] = main_cfg['hi'] = str(hi)
+    pr = PairRun(nodes, sup, sync, rstep, True, first_cfg, main_cfg, peer=True, hi=hi)
+    if hi is not None:
+        pr.recs['peer']['cfg']['hi'] = str(hi)
     try:
         sib = pr.first.post()
+        # (a number of no class in a public vector: the execution is rejected at that step, nothing can follow it)
+        lost = lambda c: any(v == svskit.BADSEQ for v in list(c['local'].values()) + [c['seq']])
         for _ in range(rng.randint(2, 4)):
-            sib = pr.step('first', random_event(rng, nodes, sib, njit, 0.0, timed=False, base=base))
+            if not lost(sib):
+                sib = pr.step('first', random_event(rng, nodes, sib, njit, 0.0, timed=False, base=base, dense=dense))
         cur = pr.start_main()
         busy = rng.choice([0.35, 0.5, 0.7])        # how chatty the neighbours are
         slots = []
         while len(pr.recs['main']['ev']) < n_events:
+            if lost(cur) or lost(sib):
+                break
             if rng.random() < 0.06:
-                sib = pr.step('first', random_event(rng, nodes, sib, njit, 0.0, timed=False, base=base))
+                sib = pr.step('first', random_event(rng, nodes, sib, njit, 0.0, timed=False, base=base, dense=dense))
             else:
-                cur = pr.step('main', random_event(rng, nodes, cur, njit, busy, base=base, slots=slots))
+                cur = pr.step('main', random_event(rng, nodes, cur, njit, busy, base=base, slots=slots, dense=dense))
     finally:
         pr.close()
     return pr
+
+
+def group(k):
+    """the node ids of a group of k (spec/Svs.tla: Grp(k))"""
+    return ['self'] + ['n%d' % i for i in range(1, k)]
+
+
+def padded(rec, nodes):
+    """the recorded execution as one of the larger group `nodes`, whose other members are never heard of: every
+    recorded vector gets a zero entry for them"""
+    def pad(v):
+        return {**{n: 0 for n in nodes}, **v}
+
+    def post(p):
+        return {**p, 'local': pad(p['local']), 'out': [pad(v) for v in p['out']], 'cbsaw': [pad(v) for v in p['cbsaw']]}
+    return {'cfg': rec['cfg'], 'ev': [{**e, 'post': post(e['post'])} for e in rec['ev']]}
+
+
+# what the model value svskit.HI stands for in the scale histories: sequence numbers on either side of 2^31 (a
+# signed 32-bit integer), of 2^32 (the 4 / 8 octet encodings), of 2^53 (a double), of 2^63 (a signed 64-bit
+# integer), 8-octet numbers throughout, and the largest NonNegativeIntegers there are
+MAG_LABELS = ('2^32', '2^63', '2^31', '2^53', '2^64 - 1', '2^40')
+MAGNITUDES = ((1 << 32) - 8, (1 << 63) - 6, (1 << 31) - 9, (1 << 53) - 7, (1 << 64) - 1 - MAXSEQ_C - 3, (1 << 40) + 12345)
 
 
 def record_sweep(nodes, sup, sync, rstep, both):
@@ -924,6 +1005,68 @@ def record_sweep(nodes, sup, sync, rstep, both):
             pr.close()
         runs.append(pr)
     return runs, len(items)
+
+
+def stage_c_scale(ctx, sup, sync, rstep, njit, total, witnessed, bgs):
+    """The same random histories at scale: groups of 20 - 100 nodes (vectors of a few entries and of the whole group:
+    up to 252 octets and beyond) x sequence numbers at every magnitude a NonNegativeInteger has (MAGNITUDES,
+    scaled classes; one history in seven keeps the ordinary numbers). Every history of the quick tier has another
+    magnitude. Judged by SvsTrace like the others, one run per group size: the executions of the instance, of its
+    sibling and of the loop-back peer (one node more) together, in the peer's group."""
+    sizes = ctx.pick((24,), (20, 40, 100))
+    count = ctx.pick(8, 126)
+    off = ctx.rng.randrange(len(MAGNITUDES) + 1)
+    by_size = {k: ([], []) for k in sizes}
+    octets = {'raised': [0, 0], 'outdated': [0, 0]}
+    n_hi = 0
+    for i in range(count):
+        k = sizes[i % len(sizes)]
+        hi = (MAGNITUDES + (None,))[(i // len(sizes) + off) % (len(MAGNITUDES) + 1)]
+        n_hi += hi is not None
+        pr = record_random(ctx.rng, group(k), ctx.rng.randint(*ctx.pick((60, 80), (90, 110))), sup, sync, rstep, njit,
+                           hi=hi, dense=True)
+        pr.report_init(ctx)
+        for who, at, sig, what in pr.raised:
+            finding(ctx, sig, what, pr.obj(who, at))
+        recs, objs = by_size[k]
+        for which in ('main', 'first', 'peer'):
+            recs.append(padded(pr.recs[which], group(k) + ['a']))
+            objs.append(lambda at, pr=pr, which=which: pr.obj(which, at))
+        bgs += pr.bg
+        for key in octets:
+            octets[key] = [a + b for a, b in zip(octets[key], pr.octets[key])]
+        if nontrivial(pr.recs['main']['ev']):
+            ctx.nt('C:' + hashlib.sha1(json.dumps(pr.recs['main'], sort_keys=True).encode()).hexdigest())
+    seen = set()
+    rej0 = total['rej'] + total['dev']
+    for k in sizes:
+        recs, objs = by_size[k]
+        step = max(30, 6000 // k)           # (a recorded vector has k entries: the trace file grows with k)
+        for b in range(0, len(recs), step):
+            fnd = judge(ctx, recs[b:b + step], group(k) + ['a'], sup, sync, rstep, 'c18-c-scale%d' % k, objs=objs[b:b + step])
+            seen |= LAST_JUDGE['witnessed']
+            total['dev'] += sum(1 for f in fnd if f['dev'])
+            total['rej'] += LAST_JUDGE['unexplained']
+        ctx.traces += len(recs)
+        ctx.evaluations += sum(len(r['ev']) for r in recs)
+    witnessed |= seen
+    ctx.extra['C_scale'] = {'sizes': list(sizes), 'histories': count, 'with_high_sequence_numbers': n_hi,
+                            'accepted_vectors_that_raised_an_entry': {'up_to_252_octets': octets['raised'][0],
+                                                                      '253_octets_and_more': octets['raised'][1]},
+                            'vectors_that_started_a_suppression_period': {'up_to_252_octets': octets['outdated'][0],
+                                                                          '253_octets_and_more': octets['outdated'][1]}}
+    ctx.note('C: scale: %d histories of groups of %s nodes, %d of them with sequence numbers around %s; vectors that '
+             'raised an entry: %d of up to 252 octets, %d of 253 and more; that started a suppression period: %d / %d' % (
+                 count, '/'.join(map(str, sizes)), n_hi,
+                 ' / '.join(MAG_LABELS),
+                 octets['raised'][0], octets['raised'][1], octets['outdated'][0], octets['outdated'][1]))
+    if total['rej'] + total['dev'] == rej0:
+        # (no vacuity verdict on a tree that is rejected)
+        need = [x for x in SCALE_WITNESSES if x not in seen]
+        thin = [k for k, v in octets.items() if 0 in v]
+        if need or thin:
+            raise tlc.MachineryError('vacuous: the scale histories never had a step of kind %s / no vector on one side '
+                                     'of 253 octets that %s' % (need, thin))
 
 
 def stage_c(ctx):
@@ -978,6 +1121,8 @@ def stage_c(ctx):
     if need and not total['rej'] and not total['dev'] and n >= 60:
         # (an execution is judged up to its first rejected event only: no vacuity verdict on a tree that is rejected)
         raise tlc.MachineryError('vacuous: the random histories never had a step of kind %s' % need)
+    if total['rej'] < MAX_DIAG:
+        stage_c_scale(ctx, sup, sync, rstep, njit, total, witnessed, bgs)
     ctx.note('C: kinds of steps (Svs!Witnesses) not seen in the recorded executions: %s' % (
         sorted(set(WITNESSES) - witnessed) or 'none'))
     ctx.extra['C_loopback'] = {'peers': len(precs), 'interests_fed_back': sum(len(r['ev']) for r in precs)}
@@ -1069,7 +1214,7 @@ def replay(ctx, path):
 
 def replay_pair(ctx, obj):
     pr = PairRun(obj['nodes'], obj['sup'], obj['sync'], obj['rstep'], obj['live'], obj['first_cfg'], obj['main_cfg'],
-                 peer=obj.get('peer', False))
+                 peer=obj.get('peer', False), hi=int(obj['hi']) if obj.get('hi') else None)
     try:
         for k, (who, ev) in enumerate(obj['schedule'] + [['end', None]]):
             if k == obj['main_after']:
